@@ -126,9 +126,52 @@ def split_out(o):
     return parts[0], parts[1], parts[2]
 
 
-def oracle_case(lines, outs, max_old=11):
+def arg_assignments(avars, rng, limit=8):
+    """assignments of the argument variables to try: all of them when few, otherwise the
+    all-false one, every single-true, some pairs and some random ones"""
+    if len(avars) <= limit:
+        for bits in itertools.product([False, True], repeat=len(avars)):
+            yield dict(zip(avars, bits))
+        return
+    yield {v: False for v in avars}
+    yield {v: True for v in avars}
+    for v in avars:
+        yield {w: (w == v) for w in avars}
+        yield {w: (w != v) for w in avars}
+    for _ in range(30):
+        a, b = rng.sample(avars, 2)
+        yield {w: (w in (a, b)) for w in avars}
+    for _ in range(20):
+        yield {w: rng.random() < 0.3 for w in avars}
+
+
+def old_models(old_cnf, n_old, avars, rng, limit=8):
+    """models of the old state (total on the old variables)"""
+    if n_old - 1 <= limit:
+        for bits in itertools.product([False, True], repeat=n_old - 1):
+            asg = {0: False}
+            asg.update({v + 1: b for v, b in enumerate(bits)})
+            if S.holds(old_cnf, asg):
+                yield asg
+        return
+    seen = set()
+    for k in range(40):
+        assum = [(v, rng.random() < (0.15 if k % 2 else 0.6)) for v in range(1, n_old) if rng.random() < 0.7 or v in avars]
+        m = S.solve(old_cnf, [a for a in assum if a[0] != 0])
+        if m is None:
+            continue
+        asg = {v: m.get(v, False) for v in range(n_old)}
+        key = tuple(sorted(asg.items()))
+        if key in seen:
+            continue
+        seen.add(key)
+        yield asg
+
+
+def oracle_case(lines, outs, seed=0):
     """checks every constructor result of one case on the implementation's own dumps.
     Returns list of (line_index, message)."""
+    rng = random.Random(seed)
     bad = []
     prev = None
     for i, (ln, o) in enumerate(zip(lines, outs)):
@@ -145,49 +188,47 @@ def oracle_case(lines, outs, max_old=11):
         res, vals, cls = sp
         if t[0] in ("c", "prop") and res == "F":
             return bad           # inconsistent network: nothing more to check
-        cnf = S.state_cnf(vals, cls)
         if t[0] in CONSTRUCTORS:
+            cnf = S.state_cnf(vals, cls)
             ls = [S.parse_lit(x) for x in t[1:]]
             l = S.parse_lit(res)
             F = formula(t[0], ls)
             avars = sorted({x[0] for x in ls})
             old_cnf = S.state_cnf(prev[0], prev[1])
             n_old = len(prev[0])
+            failed = False
             # (1) equivalence / forcing on the new state
-            for bits in itertools.product([False, True], repeat=len(avars)):
-                asg = dict(zip(avars, bits))
-                asg[0] = False
-                if 0 in avars and bits[avars.index(0)]:
+            for asg in arg_assignments(avars, rng):
+                asg = dict(asg)
+                if asg.get(0, False):
                     continue
-                assum = [(v, b) for v, b in asg.items()]
+                asg[0] = False
+                assum = list(asg.items())
                 want = F(asg)
                 if t[0] in ("eq", "conj", "disj"):
-                    # the literal must take the value of the formula in every model
-                    if S.solve(cnf, assum + [(l[0], l[1] != want)] if l[0] not in asg else assum) is not None:
-                        if l[0] in asg:
-                            if (asg[l[0]] == l[1]) != want:
-                                bad.append((i, f"{ln}: model with args {asg} where literal {res} != formula"))
-                                break
-                        else:
-                            bad.append((i, f"{ln}: satisfiable with args {asg} and literal {res} = {not want}"))
+                    if l[0] in asg:
+                        if (asg[l[0]] == l[1]) != want and S.solve(cnf, assum) is not None:
+                            bad.append((i, f"{ln}: model with args {asg} where literal {res} != formula"))
+                            failed = True
                             break
-                else:
-                    if not want:
-                        if l[0] in asg:
-                            if asg[l[0]] == l[1] and S.solve(cnf, assum) is not None:
-                                bad.append((i, f"{ln}: literal {res} true with args {asg} violating the cardinality constraint"))
-                                break
-                        elif S.solve(cnf, assum + [l]) is not None:
+                    elif S.solve(cnf, assum + [(l[0], l[1] != want)]) is not None:
+                        bad.append((i, f"{ln}: satisfiable with args {asg} and literal {res} = {not want}"))
+                        failed = True
+                        break
+                elif not want:
+                    if l[0] in asg:
+                        if asg[l[0]] == l[1] and S.solve(cnf, assum) is not None:
                             bad.append((i, f"{ln}: literal {res} true with args {asg} violating the cardinality constraint"))
+                            failed = True
                             break
+                    elif S.solve(cnf, assum + [l]) is not None:
+                        bad.append((i, f"{ln}: literal {res} true with args {asg} violating the cardinality constraint"))
+                        failed = True
+                        break
             # (2) conservativity: every model of the old state extends to the new one
             #     (with the literal true when the cardinality constraint holds)
-            if n_old <= max_old and not any(b[0] == i for b in bad):
-                for bits in itertools.product([False, True], repeat=n_old - 1):
-                    asg = {0: False}
-                    asg.update({v + 1: b for v, b in enumerate(bits)})
-                    if not S.holds(old_cnf, asg):
-                        continue
+            if not failed:
+                for asg in old_models(old_cnf, n_old, avars, rng):
                     assum = list(asg.items())
                     if t[0] in ("amo", "exo") and F(asg):
                         assum2 = assum + ([l] if l[0] not in asg else [])
@@ -236,6 +277,8 @@ def shrink_case(exe, lines, pred):
     while changed:
         changed = False
         for i in range(len(cur) - 1, 0, -1):
+            if cur[i] == "v":
+                continue          # variables stay declared: every candidate remains a valid history
             cand = cur[:i] + cur[i + 1:]
             if pred(cand):
                 cur = cand
@@ -290,18 +333,21 @@ def run(tier, seed, replay=None):
             b = oracle_case(cl, ci_)
             if b:
                 oracle_bad.append((ci, b))
-    # report: group by constructor of the first failing line
-    reported = set()
+    # report per constructor: a concrete failing input if the oracle finds one in any mismatching
+    # case of that constructor, otherwise the broken correspondence with no-failing-input-found
     obad = {ci: b for ci, b in oracle_bad}
+    sites = {}
     for ci, first in mism:
         cl, ci_, cm = cases[ci]
-        op = cl[first].split()[0]
         if ci in obad:
             k, msg = obad[ci][0]
-            site = cl[k].split()[0]
-            if ("o", site) in reported:
-                continue
-            reported.add(("o", site))
+            sites.setdefault(cl[k].split()[0], {"o": [], "c": []})["o"].append((ci, k))
+        else:
+            sites.setdefault(cl[first].split()[0], {"o": [], "c": []})["c"].append((ci, first))
+    for site, d in sorted(sites.items()):
+        if d["o"]:
+            ci, k = min(d["o"], key=lambda x: len(cases[x[0]][0]))
+            cl = cases[ci][0]
 
             def pred(cand, site=site):
                 io, _ = vlib.run_lines(vlib.impl_cmd(exe), cand, "case ", 60)
@@ -309,15 +355,17 @@ def run(tier, seed, replay=None):
             small = shrink_case(exe, cl, pred)
             io, _ = vlib.run_lines(vlib.impl_cmd(exe), small, "case ", 60)
             mo, _ = vlib.run_lines([vlib.model_exe(), "enc"], small, "case ", 60)
-            msg = oracle_case(small, io)[0][1]
-            rep.violation(f"{site}: {msg}", {"kind": "oracle", "ops": small, "impl": io, "model": mo}, tags={site + ":differs-from-model"})
+            ob = oracle_case(small, io)
+            msg = ob[0][1] if ob else obad[ci][0][1]
+            rep.violation(f"{site}: {msg}", {"kind": "oracle", "ops": small, "impl": io, "model": mo, "cases_failing": len(d["o"])},
+                          tags={site + ":differs-from-model"})
         else:
-            if ("c", op) in reported:
-                continue
-            reported.add(("c", op))
-            rep.violation(f"{op}: model and implementation differ at `{cl[first]}` (impl {ci_[first]}, model {cm[first]}); the propositional oracle finds no property failure on the implementation's clause database in this case",
-                          {"kind": "correspondence", "theorem_or_correspondence": f"correspondence enc/{op}", "ops": cl[:first + 1], "impl": ci_[:first + 1], "model": cm[:first + 1]},
-                          tags={op + ":differs-from-model"}, no_input=True)
+            ci, first = min(d["c"], key=lambda x: len(cases[x[0]][0]))
+            cl, ci_, cm = cases[ci]
+            rep.violation(f"{site}: model and implementation differ at `{cl[first]}` (impl {ci_[first][:300]}, model {cm[first][:300]}); the propositional oracle finds no property failure on the implementation's clause database in any of the {len(d['c'])} differing cases",
+                          {"kind": "correspondence", "theorem_or_correspondence": f"correspondence enc/{site}", "ops": cl[:first + 1], "impl": ci_[:first + 1], "model": cm[:first + 1]},
+                          tags={site + ":differs-from-model"}, no_input=True)
+    reported = set()
     for ci, b in oracle_bad:
         if any(ci == m[0] for m in mism):
             continue
